@@ -3,7 +3,7 @@
      tree.py:120-176    Tree.__contains__ / __delitem__ (read side) / __getitem__
      tree.py:451-512    Tree.find_all / find_first
    as repaired by fixes/D26.diff (slice direction, no live list), fixes/D27.diff
-   (limit on the data/data_id path of Node.find_all) and fixes/D44.diff
+   (limit on the data/data_id path of Node.find_all) and fixes/D46.diff
    (`is not None` instead of truthiness for data / data_id in Node.find_all).
    No proofs here.
 
